@@ -351,7 +351,8 @@ def _writer_surroundings(ctx):
     roots = set()
     for u in users:
         roots |= writer_roots(facts, u)
-    ctx.ob("R06.1", "stream-users", roots <= {conn.TRY_WRITE, conn.RECV}, "functions that borrow HttpConnection.stream: %s (on behalf of %s)" % (sorted(users), sorted(roots)))
+    # read_bytes may lend the stream to the receive wrapper (`Self::recv_with_fds(&self.stream, buf, files)`): the receive path
+    ctx.ob("R06.1", "stream-users", roots <= {conn.TRY_WRITE, conn.RECV, conn.READ_BYTES}, "functions that borrow HttpConnection.stream: %s (on behalf of %s)" % (sorted(users), sorted(roots)))
 
 
 def paths_abstract(ctx):
@@ -367,7 +368,11 @@ def paths_abstract(ctx):
     Anything applied to the slot or an object that is not understood fails closed."""
     from ..lin import Lin, State
     facts = ctx.facts
-    fn, lv = leaves(ctx, conn.TRY_WRITE, lower=True)
+    fn = facts.fn(conn.TRY_WRITE)
+    ctx.touched(fn)
+    from ..paths import PathEnum
+    # pending_write() traversed inline: `if !self.pending_write() { return Err(InvalidWrite) }` is a test of the slot and the queue
+    lv = PathEnum(fn, facts, lower=True, inline_also=lambda p_, a_: p_ == conn.P + "pending_write").run()
     ctx.ob("R06.1", "no-cycle", not fn.cycles(), "try_write has no CFG cycle (cycles: %s)" % fn.cycles(), fn.loc(0))
     seen = set()
     READERS = ("len", "as_slice", "is_empty", "deref", "as_ref", "as_ptr", "iter", "capacity", "borrow", "first", "last", "get", "starts_with", "ends_with", "to_vec", "clone")
@@ -503,6 +508,16 @@ def paths_abstract(ctx):
                 to = tested_option(e[3], e[4])
                 if to is not None:
                     learn(*to)
+                # the queue was seen non-empty (`!queue.is_empty()`, nothing removed since): its pop_front cannot be None
+                y_ = look(e[3])
+                neg_ = False
+                while y_[0] == "un" and y_[1] == "Not":
+                    y_, neg_ = look(y_[2]), not neg_
+                if is_call(y_, "is_empty") and y_[2] and self_field(y_[2][0], "response_queue") and truth(e[4]) is not None and not st["pops"] and not st["qcleared"]:
+                    st["q_nonempty"] = (truth(e[4]) == neg_)
+                from .util import option_test as _ot
+                if st.get("q_nonempty") and len(st["pops"]) == 1 and not st["qcleared"] and _ot(e[3], e[4], lambda y: norm(y) == norm(st["pops"][0][0][4])) == "none":
+                    st["infeasible"] = True
                 continue
             if e[0] == "assign":
                 if e[3] == "(*_1).response_buffer":
@@ -642,6 +657,7 @@ def paths_abstract(ctx):
                 q_empty = q_empty or (bool(pops) and rk[0] == "prop" and norm(propagated_error(rk[1])[0]) == norm(pops[0][0][4]))
                 from .util import option_test
                 q_empty = q_empty or any(option_test(t, c, lambda y: is_call(y, "pop_front")) == "none" for (t, c, _b) in lf.conds)
+                q_empty = q_empty or (not pops and conn.atom_truth(lf, lambda t: is_call(t, "is_empty") and self_field(t[2][0], "response_queue")) is True)
                 ctx.ob("R06.1", "invalid-write|nothing-pending-and-untouched", st["entry_none"] is True and final == "NONE" and q_empty and not sers and not st["qcleared"], "InvalidWrite is returned only with no unsent buffer and an empty queue, without touching the stream", loc)
             else:
                 ctx.ob("R06.1", "no-write-path|inert", rk[0] == "Ok" and st["slot"] == "ENTRY" and not pops and not st["qcleared"] and not any(o_["drained"] or o_["shift"] is not None for o_ in st["objs"].values()), "a path without a stream write changes nothing (returns %s, slot %s, entry buffer None: %s)" % (rk[0], st["slot"], st["entry_none"]), loc, witness="blocks %s" % lf.trace[-12:])
@@ -673,6 +689,11 @@ def paths_abstract(ctx):
                 return N
             if is_call(x, "len") and st["lens"].get(norm(x)) == (o, True):
                 return L
+            src_ = payload_of(x)
+            if src_ is not None and x[0] != "bin" and is_call(src_, "checked_sub") and len(src_[2]) == 2:
+                a__, b__ = side(src_[2][0]), side(src_[2][1])
+                if a__ is not None and b__ is not None:
+                    return a__ - b__         # the Some payload of `len.checked_sub(n)`
             return None
 
         for (t, c, _b) in lf.conds:
@@ -681,12 +702,20 @@ def paths_abstract(ctx):
                 if c[0] == "ne" and len(c[1]) == 1:
                     wres = "ok" if c[1][0] == 1 else "err"
             x = look(t)
-            if side(x) is N and x[0] != "bin":
+            if t[0] == "discr" and is_call(look(t[1]), "checked_sub") and len(look(t[1])[2]) == 2 and option_is_some(c) is not None:
+                a__, b__ = side(look(t[1])[2][0]), side(look(t[1])[2][1])
+                if a__ is not None and b__ is not None:
+                    if option_is_some(c):
+                        ls.add_le(b__ - a__)
+                    else:
+                        ls.add_le(a__ - b__ + Lin.const(1))
+            sx = side(x) if x[0] not in ("bin", "const") else None
+            if sx is not None:
                 if c[0] == "eq" and not isinstance(c[1], bool):
-                    ls.add_eq(N - Lin.const(c[1]))
+                    ls.add_eq(sx - Lin.const(c[1]))
                 elif c[0] == "ne":
                     for k in c[1]:
-                        ls.add_ne(N - Lin.const(k))
+                        ls.add_ne(sx - Lin.const(k))
             if t[0] == "bin" and t[1] in ("Lt", "Le", "Gt", "Ge", "Eq", "Ne") and truth(c) is not None:
                 a_, b_ = side(t[2]), side(t[3])
                 if a_ is not None and b_ is not None:
@@ -799,13 +828,16 @@ def fifo(ctx, rule, field, allowed, floor=3):
                 from .util import local_callee, is_new_fn
                 from .fields import param_consumers
                 lc = local_callee(t)
-                if lc in facts.fns and is_new_fn(lc):
+                if lc in facts.fns:      # a crate-local callee (new helper, or a known function whose signature now takes the field)
                     g = facts.fns[lc]
                     idx = [i for i, a in enumerate(t["args"]) if a["k"] in ("copy", "move") and not a["place"]["proj"]]
                     inner = []
+                    fty = [f_["ty"] for f_ in facts.struct_fields(conn.HC) if f_["name"] == field]
                     for i in idx:
                         ty = g.locals[i + 1]["ty"] if i + 1 < len(g.locals) else {}
                         if ty.get("k") == "ref" and ty.get("mut"):
+                            if fty and (ty.get("inner") or {}).get("s") and fty[0].get("s") and (ty["inner"]["s"] != fty[0]["s"]) and len(idx) > 1:
+                                continue        # another `&mut` argument of the same call (a buffer, a counter): not this field
                             inner += param_consumers(g, i + 1)
                     ok = bool(inner) and all(last_seg(x["callee"].get("path") or "") in allowed for x in inner)
             if ok and last_seg(callee) in ("clear", "truncate", "drain", "retain", "split_off") and field == "response_queue":
